@@ -61,6 +61,7 @@ type FaultMenu struct {
 	Stall      bool
 	MapOrder   bool
 	Pool       bool
+	NoFreeze   bool // the fault "stalled goroutine" (task_freeze) makes no sense for this workload
 	MaxSteps   int
 	PCTSteps   int
 }
@@ -124,6 +125,12 @@ func DrawConfig(r *simrt.Rand, m FaultMenu) simrt.Config {
 	if m.MapOrder {
 		cfg.MapShuffle = r.Intn(2) == 0
 	}
+	if !m.NoFreeze && r.Intn(4) == 0 {
+		// stalled goroutines: every now and then an enabled task gets no processor for
+		// a while (short and frequent, or long and rare)
+		cfg.FreezeGap = []int{20, 60, 200}[r.Intn(3)]
+		cfg.FreezeMax = []int{30, 200, 1000}[r.Intn(3)]
+	}
 	if m.Pool {
 		cfg.PoolMiss = []float64{0, 0.1, 0.3}[r.Intn(3)]
 		cfg.PoolDrop = []float64{0, 0.1, 0.3}[r.Intn(3)]
@@ -146,15 +153,17 @@ type ConfigJSON struct {
 	PoolMiss    float64 `json:"pool_miss,omitempty"`
 	PoolDrop    float64 `json:"pool_drop,omitempty"`
 	PoolReorder bool    `json:"pool_reorder,omitempty"`
+	FreezeGap   int     `json:"freeze_gap,omitempty"`
+	FreezeMax   int     `json:"freeze_max,omitempty"`
 }
 
 func toJSONCfg(c simrt.Config) ConfigJSON {
-	return ConfigJSON{c.Seed, c.MaxSteps, int(c.Strategy), c.StickyQ, c.PCTDepth, c.PCTSteps, c.StallProb, c.MapShuffle, c.PoolMiss, c.PoolDrop, c.PoolReorder}
+	return ConfigJSON{c.Seed, c.MaxSteps, int(c.Strategy), c.StickyQ, c.PCTDepth, c.PCTSteps, c.StallProb, c.MapShuffle, c.PoolMiss, c.PoolDrop, c.PoolReorder, c.FreezeGap, c.FreezeMax}
 }
 
 func fromJSONCfg(c ConfigJSON) simrt.Config {
 	return simrt.Config{Seed: c.Seed, MaxSteps: c.MaxSteps, Strategy: simrt.Strategy(c.Strategy), StickyQ: c.StickyQ, PCTDepth: c.PCTDepth,
-		PCTSteps: c.PCTSteps, StallProb: c.StallProb, MapShuffle: c.MapShuffle, PoolMiss: c.PoolMiss, PoolDrop: c.PoolDrop, PoolReorder: c.PoolReorder, StopOnPanic: true}
+		PCTSteps: c.PCTSteps, StallProb: c.StallProb, MapShuffle: c.MapShuffle, PoolMiss: c.PoolMiss, PoolDrop: c.PoolDrop, PoolReorder: c.PoolReorder, FreezeGap: c.FreezeGap, FreezeMax: c.FreezeMax, StopOnPanic: true}
 }
 
 // Replay is the on-disk replay file.
